@@ -495,7 +495,7 @@ func c02Cause(c c02Case, o *c02Obs) string {
 	case c.Stream && o.StreamLeft:
 		return "stream-body-unread"
 	case c.Stream:
-		return "stream-other"
+		return "stream-body-consumed"
 	}
 	return "buffered-body"
 }
